@@ -1509,7 +1509,14 @@ class WriteTool(BaseTool):
                     result["schema_version"] = schema_definition.version or "unknown"
 
                 validator = Validator(schema=schema_def)
-                validation_errors = validator.validate(doc, strict=False, section_schemas=section_schemas)
+                validation_findings = validator.validate(doc, strict=False, section_schemas=section_schemas)
+                # Findings with severity="warning" (UNKNOWN_FIELDS::WARN) are reported, never blocking
+                validation_errors = [err for err in validation_findings if err.severity != "warning"]
+                schema_warnings = [err for err in validation_findings if err.severity == "warning"]
+                if schema_warnings:
+                    result["validation_warnings"] = [
+                        {"code": err.code, "message": err.message, "field": err.field_path} for err in schema_warnings
+                    ]
 
                 # Lenient mode: apply minimal safe repairs for builtin dict schemas (META-only)
                 if lenient and schema_def is not None and validation_errors:
@@ -1550,7 +1557,11 @@ class WriteTool(BaseTool):
                     if did_repair:
                         canonical_content = emit(doc)
                         canonical_metrics = extract_structural_metrics(doc)
-                        validation_errors = validator.validate(doc, strict=False, section_schemas=section_schemas)
+                        validation_errors = [
+                            err
+                            for err in validator.validate(doc, strict=False, section_schemas=section_schemas)
+                            if err.severity != "warning"
+                        ]
 
                 # Lenient mode may apply safe schema repairs (enum casefold, type coercion)
                 if lenient and schema_definition is not None and validation_errors:
@@ -1572,7 +1583,11 @@ class WriteTool(BaseTool):
                         canonical_content = emit(doc)
                         canonical_metrics = extract_structural_metrics(doc)
                         # Revalidate
-                        validation_errors = validator.validate(doc, strict=False, section_schemas=section_schemas)
+                        validation_errors = [
+                            err
+                            for err in validator.validate(doc, strict=False, section_schemas=section_schemas)
+                            if err.severity != "warning"
+                        ]
                     except Exception:
                         # Best-effort: if repair fails, preserve original validation_errors
                         pass
